@@ -315,3 +315,5 @@ META = {
     'not_decided': 'metamorphic equality of whole rulesets (a run)',
     'technique': 'sibling-argument comparison + def-use transformer whitelist on the line-to-yield data flow + exit/handler discipline',
 }
+
+META['explanation'] += ' ' + 'Further: the reader validates the final value; without --encoding the encoding always comes from detect_file_encoding.'
